@@ -15,14 +15,15 @@ Alphabet == {0, 127, 255}
 Short == UNION {[1..n -> Alphabet] : n \in 0..3}
 Fixed == { <<1, 2, 3, 4, 5>>,
            <<0, 255, 128, 127, 1, 254, 16, 32, 64>>,
-           <<9, 8, 7, 6, 5, 4, 3, 2, 1, 0, 255, 254, 253>> }
+           <<9, 8, 7, 6, 5, 4, 3, 2, 1, 0, 255, 254, 253>>,
+           [i \in 1..22 |-> (i * 11 + 3) % 256] }        \* long enough for a pair of 8-byte fields
 TestEncs == Short \cup Fixed
 
 (* two parameter sets: a window limit below and above the longest test encoding *)
 Params == { [win |-> 10, combo |-> "all", raw |-> 1], [win |-> 64, combo |-> "class", raw |-> 1] }
 VARIABLE par
 
-MKinds == {"b", "t", "s", "m", "a", "c", "r"}
+MKinds == {"b", "t", "s", "m", "a", "c", "o", "p", "u", "r"}
 
 Init == enc \in TestEncs /\ par \in Params /\ desc = <<"b">> /\ TallyInit
 
@@ -44,7 +45,7 @@ ContractShape == \A o \in Outcomes : Parse("p", desc, o) <=> o \in {"ok", "err"}
 (* counting laws, evaluated once *)
 NoDup(s) == Cardinality({s[j] : j \in 1..Len(s)}) = Len(s)
 CountLaw(L, P) ==
-    \A kind \in {"b", "t", "s", "m", "a", "c"} :
+    \A kind \in {"b", "t", "s", "m", "a", "c", "o", "p", "u"} :
         LET ds == DescSeq(kind, L, P) IN
         /\ Len(ds) = NumDesc(kind, L, P)
         /\ NoDup(ds)
@@ -59,5 +60,15 @@ ASSUME LET rs == RawSeq(2) IN
        /\ Len(rs) = NumDesc("r", 0, [win |-> 64, combo |-> "class", raw |-> 2])
        /\ {Tail(rs[j]) : j \in 1..Len(rs)} = UNION {[1..n -> Byte] : n \in 0..2}
 ASSUME Len(RawSeq(1)) = 257 /\ Len(RawSeq(0)) = 1
+(* the overflow values: w bytes each, all different, and - where a 32-bit TLC integer can say it - *)
+(* the constructors build 2^e + d, 2^e - 1 and 2^(8w) - 1 - d in little endian                   *)
+LEValue(b) == LET S[i \in 0..Len(b)] == IF i = 0 THEN 0 ELSE S[i - 1] * 256 + b[Len(b) - i + 1] IN S[Len(b)]
+ASSUME \A w \in {4, 8} : /\ \A v \in 1..NV(w) : Len(OVal(w, v)) = w /\ \A j \in 1..w : OVal(w, v)[j] \in Byte
+                          /\ Cardinality({OVal(w, x) : x \in 1..NV(w)}) = NV(w)
+ASSUME \A e \in 8..30 : /\ LEValue(PowPlus(4, e, 100)) = 2 ^ e + 100 /\ LEValue(PowPlus(8, e, 0)) = 2 ^ e
+                         /\ LEValue(PowMinus1(4, e)) = 2 ^ e - 1 /\ LEValue(PowMinus1(8, e)) = 2 ^ e - 1
+ASSUME LEValue(MaxMinus(3, 80)) = 2 ^ 24 - 1 - 80 /\ LEValue(MaxMinus(2, 0)) = 65535
+ASSUME PowPlus(8, 61, 100) = <<100, 0, 0, 0, 0, 0, 0, 32>> /\ PowMinus1(8, 64 - 3) = <<255, 255, 255, 255, 255, 255, 255, 31>>
+ASSUME NV(8) = 38 /\ NV(4) = 20
 ASSUME \A k \in 0..2 : Pow256(k) = Cardinality([1..k -> Byte])
 =============================================================================
